@@ -418,7 +418,17 @@ func (f *Frame) checkDrained(r retRec) {
 	if now == was {
 		return
 	}
-	e.oblige("handoff", "drained", r.pc, fmt.Sprintf("(forall ((c!p Int)) (= (select %s c!p) 0))", now),
+	a0 := e.comp(f.entry, "alloc", arrSort(sBool))
+	goals := []string{fmt.Sprintf("(forall ((c!p Int)) (=> (select %s c!p) (= (select %s c!p) (select %s c!p))))", a0, now, was)}
+	var chs []string
+	for ch := range f.tasks {
+		chs = append(chs, ch)
+	}
+	sort.Strings(chs)
+	for _, ch := range chs {
+		goals = append(goals, eq(sel(now, ch), "0"))
+	}
+	e.oblige("handoff", "drained", r.pc, and(goals...),
 		"no producer goroutine is left blocked on an undrained channel at return", r.pos, nil)
 }
 
